@@ -626,6 +626,22 @@ def coll_one_gap():
     return ds
 
 
+def coll_pow2_longest():
+    """the longest descriptor is exactly 64 bytes (a power of two, and a whole number of packets for every max packet size):
+    the position after its last byte needs one bit more than any position inside it"""
+    ds = DeviceDescriptorCollection()
+    with ds.DeviceDescriptor() as d:
+        d.bcdUSB = 2.00; d.idVendor = 0x1234; d.idProduct = 0x4567
+        d.iManufacturer = "M" * 31            # 2 + 62 = 64 bytes
+        d.bNumConfigurations = 1
+    with ds.ConfigurationDescriptor() as cfg:
+        with cfg.InterfaceDescriptor() as i:
+            i.bInterfaceNumber = 0
+            with i.EndpointDescriptor() as e:
+                e.bEndpointAddress = 0x81; e.wMaxPacketSize = 64
+    return ds
+
+
 def coll_big():
     """device + a 130-byte configuration + strings incl. exactly 64 and 128 bytes + sparse string indices + BOS (type 15)
     + a type-0x22 report descriptor of 32 bytes."""
@@ -824,6 +840,10 @@ def _contracts(tier):
     for mp in ((64,) if quick else (8, 16, 32, 64)):
         yield ("GetDescriptorHandlerBlock", f"consecutive_maxpkt{mp}", make_block(coll_consecutive, mp))
     yield ("GetDescriptorHandlerBlock", "one_gap_maxpkt16", make_block(coll_one_gap, 16))
+    yield ("GetDescriptorHandlerBlock", "pow2_longest_maxpkt64", make_block(coll_pow2_longest, 64))
+    if not quick:
+        yield ("GetDescriptorHandlerBlock", "pow2_longest_maxpkt16", make_block(coll_pow2_longest, 16))
+        yield ("GetDescriptorHandlerDistributed", "pow2_longest_maxpkt64", make_distributed(coll_pow2_longest, 64))
     if not quick:
         yield ("GetDescriptorHandlerDistributed", "one_gap_maxpkt16", make_distributed(coll_one_gap, 16))
         yield ("GetDescriptorHandlerBlock", "one_gap_maxpkt64", make_block(coll_one_gap, 64))
